@@ -156,7 +156,7 @@ def real_constraints(ctx, I):
     ctx.sample(dict(kind="real-constraint", constraint=name, token=hex(ty), announced=size, highwater=hw, bound=bound))
     # negotiation phase: more than 4096 bytes without a blank line end the attempt
     import foolscap.negotiate as neg
-    for total in (4096, 4097, 10000):
+    for total in (4096, 4099, 4100, 10000):
         nobj = neg.Negotiation()
         nobj.isClient = False
         log_ = []
@@ -178,6 +178,7 @@ def real_constraints(ctx, I):
             hwn = max(hwn, len(nobj.buffer))
         ctx.case(["negotiation-cap", total], nontrivial=True)
         lost = ("lose",) in log_
-        if (total > 4096) != lost or hwn > 4096 + 1000:
+        # without a terminator the attempt is abandoned once 4096 + 4 bytes are buffered (see negotiate.py)
+        if (total >= 4100) != lost or hwn > 4100 + 1000:
             ctx.fail("oracle/negotiation-cap", "negotiation buffer: fed %d bytes without a blank line: connection dropped=%s, high-water %d"
                      % (total, lost, hwn), replay=dict(total=total))
